@@ -40,7 +40,13 @@ def r4(run, tree):
     iof.check_derived_variables(run, tree)
 
 
-RULES = [r1, r2, r3, r4]
+def r5_sink_excluded(run, tree):
+    run.rule("C13.R5", "an excluded sink group is not returned, whatever the sink file looks like (missing, empty, populated); shared with C14.R4",
+             "D7 fold of SinkReader.initialize over header forms and histories", "", floor=3)
+    iof.check_sink(run, tree)
+
+
+RULES = [r1, r2, r3, r4, r5_sink_excluded]
 
 
 def t_all_selections(run, tree):
